@@ -58,3 +58,40 @@ claim("C42", "floodsim", SIM + "per-peer accounting oracle between resets over a
 claim("C43", "floodsim", SIM + "seeded interleavings of real goroutines parked at throttler/processor seams inside a synctest bubble",
       "2-6 tasks deliver messages to the real SingleDataInterceptor / MultiDataInterceptor / TrieNodeResolver whose throttler is the real NumGoRoutinesThrottler behind a parking wrapper; the plan releases one seam call at a time; running admitted tasks must never exceed the maximum. The check-then-act window is a recorded known finding; every other kind still fails the check. Sampling, not proof.",
       "Interleavings are decided at seam-call granularity (CanProcess, StartProcessing, EndProcessing, processor work); goroutine identity via runtime.Stack.")
+
+POOL_NOTE = "Trusts the verif-tagged accessor VerifSenders; txcache orders senders of one score bucket by Go map iteration, so plans avoid states where a tie and a binding count coincide (stated in the evidence assumptions); the sweeper goroutine is quiesced with synctest.Wait after each selection."
+claim("C25", "poolsim", SIM + "index-consistency invariants after every step of add/remove/select/notify/clear histories with eviction and per-sender limits",
+      "Seeded histories on the real TxCache with tiny eviction thresholds and per-sender limits; after every step the hash index, the per-sender lists, the counters, ordering and (after each AddTx) the sender's limits are compared. The byte-limit clause is a recorded known finding; every other kind still fails the check. Sampling, not proof.", POOL_NOTE)
+claim("C26", "poolsim", SIM + "selection oracle: prefix per sender, no skipped nonce, initial gap and grace period tracked from the selection history",
+      "Every SelectTransactions result of the same histories is checked: size, distinctness, membership, per-sender prefix, no nonce skipped, senders with an initial gap contribute nothing (one transaction inside the grace window). Sampling, not proof.", POOL_NOTE)
+
+claim("C09", "prunesim", SIM + "liveness-of-roots invariant after every step, checked by an independent trie walker over the raw disk; finalize/rollback protocol of the block processor mirrored by the driver; read/remove-error injection",
+      "Seeded block histories (commit/abort/finalize through the real slice queue/rollback/block-unblock pruning/restart) over accounts with data tries on the real AccountsDB + storagePruningManager + evictionWaitingList over SimDisk; after every step every live root must be fully retrievable; at the end of decidable runs no node of a pruned root may remain. Two defects are recorded known findings (recurring root values; rollback while pruning is blocked leaves garbage); any other violation fails the check. Sampling, not proof.",
+      "Trusts the walker and the liveness definition stated in the evidence assumptions (linear history, restart on a final block); the ten-line finalize/rollback protocol is mirrored, the block processor is not instantiated.")
+claim("C10", "prunesim", SIM + "seeded interleavings of the real snapshot/checkpoint goroutines (parked at every main-DB access inside a synctest bubble) with commits, prunes and rollbacks; completeness oracle over the snapshot DB alone",
+      "C09 histories plus SnapshotState/SetStateCheckpoint of final roots; background workers advance one DB access at a time as the plan dictates while the driver keeps committing, finalizing (pruning) and rolling back; when a snapshot/checkpoint completed the walker must rebuild the whole state from the snapshot DB alone. Sampling, not proof.",
+      "One snapshot or checkpoint at a time, for final roots in chain order, checkpoint only after a completed snapshot, no restart (in-memory snapshot DBs); interleavings at DB-access granularity; goroutine identity via runtime.Stack.")
+claim("C20", "forksim", SIM + "twin detectors fed the same batches in different internal orders over a simulated arrival schedule (delay, duplicate, reorder); fork-above-final invariant at every CheckFork",
+      "Seeded block trees and event streams (received/processed/notarized/proposed headers, removals, resets, rollback requests, round ticks) delivered to two real fork detectors; every detected fork must lie above the final nonce unless a rollback was requested or consensus is stuck, and both twins must agree. Sampling, not proof.",
+      "Only received/proposed headers of one nonce are permuted inside a batch (notarization callbacks are delivered in the same order to both twins); RoundHandler and BlockTracker are stubs driven by the plan.")
+claim("C23", "txsim", SIM + "conservation and nonce oracle against a balance model, driver plays the block processor (journal length, revert on error), read-error injection on account loading",
+      "Seeded transaction sequences (values, gas settings, nonces equal/lower/higher, sender==receiver, missing accounts, epoch flags) through the real txProcessor + economicsData + fee accumulator + AccountsDB over SimDisk; per transaction and globally: value conserved, fee accounted, only the fee charged on insufficient funds, nothing on other rejections, nonce +1 exactly when something is charged. Sampling, not proof.",
+      "Fee amounts are taken from the real economicsData (the property is about conservation, not the fee formula); sc processor and forwarders are recording stubs never reached by move-balance transactions; one shard.")
+
+claim("C30", "storersim", SIM + "refinement against per-epoch maps with active/retained windows; epoch changes through the real notifier callbacks; put/get-error injection and restarts over per-path SimDisks",
+      "Seeded histories of put/put-in-epoch/get/get-from-epoch/has/search-first/remove/clear-cache/change-epoch (with stuck-shard extension)/restart on the real PruningStorer and FullHistoryPruningStorer; values must be readable while promised and never readable from an active epoch after Remove. Sampling, not proof.",
+      "Active window = the numOfActivePersisters newest epochs (extension epochs are allowed extras); bloom filter is memory-only, so Get/Has after a restart with bloom on are probes; disk handles fail after Close like leveldb.")
+claim("C34", "triggersim", SIM + "history oracle over a logical round clock: epoch +1 per start, minimum distance, normal start at the first round after roundsPerEpoch",
+      "Seeded monotone round streams with skips, forced starts (ahead, equal, behind, far ahead), SetProcessed, Revert and Restart(LoadState over SimDisk) on the real metachain trigger. Sampling, not proof.",
+      "Start round and pending-force flag are taken from the driver's own history, not from the trigger's getters; with a force pending only the +1 and minimum-distance clauses are asserted.")
+EPOCH_NOTE = "2-4 simulated nodes, each with its own real coordinator, shuffler, boot storer (SimDisk) and group cache; validator info is always built from the previous epoch's result (the precondition of the statements). Go map iteration cannot be seeded: verdicts do not depend on it on correct code; a C13 replay is re-executed up to 30 times."
+claim("C12", "epochsim", SIM + "multiset conservation oracle on every recorded UpdateNodeLists call of every simulated node over several epochs",
+      "Seeded registries evolve over 3-10 epochs (register, unstake incl. duplicates and unknown keys, jail, inactive, rating drift); old eligible+waiting+new must equal new eligible+waiting+leaving as multisets, leaving must come from the lists, not-honoured requests stay listed. The never-listed-leaving case is a recorded known finding; every other kind still fails the check. Sampling, not proof.", EPOCH_NOTE)
+claim("C13", "epochsim", SIM + "multi-node agreement oracle: all nodes, a double computation and restarted nodes must hold identical lists, order included; inputs rebuilt in different insertion orders",
+      "Same runs; after each epoch every node's eligible/waiting/leaving lists are compared, and the real shuffler is called repeatedly with identically-valued maps built in different orders. Sampling, not proof.", EPOCH_NOTE)
+claim("C14", "epochsim", SIM + "minimum-size invariant after each epoch under heavy leaving, conditional on the stated precondition",
+      "Same runs biased to many leaving validators; when the waiting-list fix is active and every shard started with its minimum, every shard keeps its minimum of eligible validators. Sampling, not proof.", EPOCH_NOTE)
+claim("C15", "epochsim", SIM + "consensus-group well-formedness and cross-node/cache-hit/cache-miss agreement on sampled (randomness, round, shard, epoch)",
+      "Same runs; sampled groups must have the configured size, distinct members from the shard's eligible list of that epoch, the same leader-first order on all nodes, on a second call and on a node whose cache holds one entry, with rater weights. Sampling, not proof.", EPOCH_NOTE)
+claim("C16", "epochsim", SIM + "one-place invariant after every EpochStartPrepare on every node",
+      "Same runs; every public key is in at most one shard and one of eligible/waiting, and GetValidatorWithPublicKey reports that shard. Sampling, not proof.", EPOCH_NOTE)
